@@ -82,11 +82,20 @@ class Session:
         if 'ok' not in rep[0]:
             raise RuntimeError('rt.ctx refused: %r' % (rep[0],))
         # the theorems assume envWF; it must hold of every environment an accepted spec produces
-        self.ck.case(('envwf', id(self)), nontrivial=False)
-        if rep[0].get('envWF'):
-            self.ck.agree('rt.envwf')
-        else:
-            self.ck.disagree('rt.envwf', {'specs': [p for p, _ in self.specs]}, 'accepted by the compiler', rep[0].get('notWF'))
+        # and so must every other decidable environment hypothesis a theorem takes ("hyps"); "restrict" entries
+        # delimit _partial theorems: their frequency shows how much of the input space lies outside the proved part
+        if not getattr(self, '_hyps_checked', False):
+            self._hyps_checked = True
+            self.ck.case(('envwf', id(self)), nontrivial=False)
+            hyps = rep[0].get('hyps', {'envWF': rep[0].get('envWF')})
+            bad = sorted(k for k, v in hyps.items() if not v)
+            if not bad:
+                self.ck.agree('rt.envwf')
+            else:
+                self.ck.disagree('rt.envwf', {'specs': self.specs}, 'accepted by the compiler',
+                                 {'false_hypotheses': bad, 'notWF': rep[0].get('notWF')})
+            for k, v in rep[0].get('restrict', {}).items():
+                self.ck.hist('rt.env.restrict.' + k, v)
         return rep[1:]
 
     # ---- real side ----------------------------------------------------------------------------
@@ -317,7 +326,18 @@ def suite_prim_grid(ck, judge=True):
             meta.append((t, irt, validator, v))
             items.append(v)
     ext = values.ext_tables(env, items, ts, types)
-    rep = ck.driver([{'op': 'rt.ctx', 'env': env, 'ext': ext}] + ops)[1:]
+    sat_ops = [{'op': 'rt.sat', 'ty': o['ty'], 'v': o['v']} for o in ops]
+    allrep = ck.driver([{'op': 'rt.ctx', 'env': env, 'ext': ext}] + ops + sat_ops)[1:]
+    rep, satrep = allrep[:len(ops)], allrep[len(ops):]
+    for (t, irt, validator, v), sr in zip(meta, satrep):
+        # the theorem validate_iff_sat is about satB: it must agree with the harness's independent predicate
+        expect = sat_ir({}, t, v)
+        if expect is None or 'sat' not in sr:
+            continue
+        if bool(sr['sat']) == bool(expect) and (not expect or canon(sr['norm']) == canon(normalise(t, v))):
+            ck.agree('rt.satB')
+        else:
+            ck.disagree('rt.satB', {'ty': irt, 'v': v}, {'reference': expect, 'norm': normalise(t, v)}, sr)
     for (t, irt, validator, v), r in zip(meta, rep):
         pv = codec.to_py(v)
         real = outcome(lambda: codec.to_tagged(validator.validate(pv)))
@@ -972,6 +992,20 @@ def suite_wire(ck, sessions, n_values, judge=True):
                 ck.disagree('rt.validB', {'type': label, 'value': stored}, 'generated as valid', rep)
             else:
                 ck.agree('rt.validB')
+            # C04's theorem: inside its domain (valid, normal, valWF, not the documented ambiguity) the decoder
+            # returns exactly `canon v` for the wire form, in both modes
+            in_domain = rep.get('valid') and rep.get('normal') and rep.get('valWF') and not rep.get('ambiguousEmpty') \
+                and rep.get('tyWF')
+            ck.hist('rt.roundtrip_theorem_domain', 'inside' if in_domain else
+                    'outside:' + ','.join(k for k in ('valid', 'normal', 'valWF', 'tyWF') if not rep.get(k)) +
+                    (',ambiguousEmpty' if rep.get('ambiguousEmpty') else ''))
+            if in_domain and real[0] == 'ok' and 'canon' in rep:
+                for strict in (True, False):
+                    back = ses.real_decode(validator, real[1], strict=strict)
+                    if back[0] == 'ok' and canon(back[1]) == canon(rep['canon']):
+                        ck.agree('rt.canon')
+                    else:
+                        ck.disagree('rt.canon', {'type': label, 'value': stored, 'strict': strict}, list(back), rep['canon'])
             if real[0] == 'ok' and json_equiv(real[1], rep['ok']):
                 ck.agree('rt.wire')
             else:
